@@ -127,8 +127,8 @@ type gates struct {
 
 // calledFromWatch reports whether the calling goroutine has (*CertWatcher).Watch on its stack.
 func calledFromWatch() bool {
-	var buf [4096]byte
-	b := buf[:runtime.Stack(buf[:], false)]
+	buf := make([]byte, 32<<10) // Watch is at the bottom of the stack, i.e. at the end of the text
+	b := buf[:runtime.Stack(buf, false)]
 	return bytes.Contains(b, []byte("CertWatcher).Watch("))
 }
 
@@ -141,9 +141,9 @@ func (g *gates) point(site string, extra string) {
 	}
 	g.seq++
 	p := &parked{site: site, extra: extra, seq: g.seq, ch: make(chan struct{})}
-	if site == siteHandle {
-		p.inWatch = calledFromWatch()
-	}
+	// asked of the goroutine itself at every gate: code that hands the reload to another goroutine leaves the
+	// Watch loop free to take the next event while that goroutine is parked
+	p.inWatch = calledFromWatch()
 	g.parked = append(g.parked, p)
 	g.mu.Unlock()
 	<-p.ch
@@ -633,7 +633,6 @@ func runOne(t *testing.T, h history, c *mc.Chooser, o runOpts) (out mc.Outcome) 
 				p := nw[0]
 				if from != nil && p.site != siteHandle {
 					p.note = from.note + snap(p)
-					p.inWatch = from.inWatch
 				} else {
 					p.note = snap(p)
 				}
